@@ -40,7 +40,7 @@ extern int __real_idn2_to_ascii_8z (const char *input, char **output, int flags)
 static void hexcat (const unsigned char *p, size_t n)
 {
     static const char hx[] = "0123456789abcdef";
-    if (n == 0) { convlog[convlog_len++] = '-'; return; }
+    if (n == 0) { convlog[convlog_len++] = '='; return; }      /* an empty string: not the same as no buffer ('-') */
     for (size_t i = 0; i < n && convlog_len + 3 < sizeof convlog; i++) {
         convlog[convlog_len++] = hx[p[i] >> 4];
         convlog[convlog_len++] = hx[p[i] & 15];
@@ -298,6 +298,7 @@ static void run_history (FILE *out, char *script)
         case 's': fprintf (out, "s%d", eav_setup (eav)); break;
         case 'm': fputc ('m', out); putmsg (out, eav_errstr (eav)); break;
         case 'f': eav_free (eav); fputc ('f', out); break;
+        case 'v': fputc ('v', out); if (eav->result) put_result (out, eav->result); else fputc ('-', out); break;   /* the record the object holds now */
         case 'x': {
             inject_rc = atoi (op + 1);
             char *c = strchr (op, ',');
